@@ -236,3 +236,14 @@ package loader
 //@   trusted "phase boundary: arbitrary effect, may panic (nothing is assumed about it)"
 //@   maypanic
 //@   modifies *
+
+// C07: an or-shortcut `@a | @b` is split at '|'; every alternative must be a
+// non-empty name before it is stored (TypesList reads name[0]).  The scanner
+// ends a shortcut at end of input even when the text after the last '|' is
+// empty, so "the lexeme value is valid" cannot be taken for granted here.
+//@ func addORShortcut(node, rootSchema, val)
+//@   props C07 C03
+//@   assumes isNode(node)
+//@   maypanic
+//@   modifies *
+//@   loop 0 invariant rangeindex >= 0 - 1
